@@ -63,6 +63,17 @@ def run(run):
     from . import C10 as c10
     from . import common as _common
     _common.delegate(run, "C07.R3", "C10", c10._r5, only_rules={"C10.R5"}, note="premise: chunk contributions are merged, never overwritten")
+    # "filtered sampling equals exhaustive sampling restricted to the accepted tiles": the filtered / chunked route stores the
+    # sampler's values through update_into_maskable_buffer, which must copy exactly the defined source pixels, per mode
+    # (C15's convention rule; a pixel the merge treats as undefined is a hole the exhaustive route does not have)
+    from . import C15 as c15
+
+    def conv(sub):
+        members = c15._enum_members(sub.project)
+        if len(members) >= 8:
+            chains = c15._r1_chains(sub, members)
+            c15._r2_conventions(sub, members, chains)
+    _common.delegate(run, "C07.R3", "C15", conv, only_rules={"C15.R2"}, note="premise: the filtered route merges exactly the defined sampled pixels")
     # filtered sampling walks the tiles of the requested coordinate system (a filter evaluated on the other system's tiles
     # rejects tiles that hold data): the system reaches every tile generator / pyramid factory on the way
     from . import toastgeom
